@@ -35,7 +35,7 @@ ASSUMPTIONS = [
     'range ends) are executed and counted but not judged',
     'Path/File selector types are excluded (they depend on the file system, not on declared constraints)',
 ]
-REQUIRED = {'mode_inherited': 100, 'mode_mutated': 100, 'attempts_judged': 20000, 'accepted': 3000, 'rejected': 3000, 'boundary_attempts': 3000, 'legacy_positional_declarations': 300}
+REQUIRED = {'mode_inherited': 100, 'mode_mutated': 100, 'attempts_judged': 20000, 'accepted': 3000, 'rejected': 3000, 'boundary_attempts': 3000, 'legacy_positional_declarations': 300, 'assignments_from_a_watcher_during_trigger': 500}
 
 _st = {}
 NAN = float('nan')
@@ -477,7 +477,35 @@ def run_case(idx, rng, P, rep):
                 elif route == 'ctor':
                     holder = K(p=v)
                 elif route == 'inst':
-                    inst.p = v
+                    if t not in ('Event', 'Action') and hook is None and rng.random() < 0.25:
+                        # the assignment is made by a watcher of the parameter while trigger() announces it
+                        box = []
+
+                        def cb_(*evs_):
+                            if not box:
+                                box.append('ok')
+                                try:
+                                    inst.p = v
+                                except Exception as ex_:   # noqa: BLE001
+                                    box[0] = ex_
+                        w_ = inst.param.watch(cb_, 'p', onlychanged=False)
+                        try:
+                            inst.param.trigger('p')
+                        except Exception:   # noqa: BLE001
+                            if box:
+                                raise
+                        finally:
+                            inst.param.unwatch(w_)
+                        if not box:
+                            # (trigger itself could not re-announce the value the object holds, e.g. after the configuration
+                            #  was changed under it: the attempt is made directly)
+                            inst.p = v
+                        else:
+                            rep.count('assignments_from_a_watcher_during_trigger')
+                            if isinstance(box[0], Exception):
+                                raise box[0]
+                    else:
+                        inst.p = v
                     holder = inst
                 elif route == 'cls':
                     K.p = v
